@@ -202,6 +202,69 @@ func c09Scenarios(tier string) []*Scenario {
 		}
 		out = append(out, sc)
 	}
+	// R: the cached reporter mirrors every timer it is asked to allocate into a histogram of the same scope (a call back
+	// into the library from inside Allocate*, for another kind of metric than the one being created): concurrent first
+	// use still ends with one timer per scope, one allocation per identity, every value delivered - and returns
+	{
+		sc := &Scenario{Property: "C09", Name: "R-first-use-of-a-timer-with-a-reporter-that-mirrors-it-into-a-histogram"}
+		sc.Body = func(x *Run) {
+			rec := &Recorder{}
+			x.Rec = rec
+			root, _ := tally.VerifNewRootScope(scopeOpts(rec, true, false), 0, 1)
+			sub := root.Tagged(map[string]string{"k": "v"})
+			rec.OnAlloc = func(kind, name string, tags map[string]string) {
+				if kind != "timer" {
+					return
+				}
+				s := root
+				if tags["k"] != "" {
+					s = sub
+				}
+				s.Histogram("mirror_of_"+name, tally.DurationBuckets{time.Millisecond}).RecordDuration(1)
+			}
+			var got [2][2]tally.Timer
+			var ths []*rt.Thread
+			for i := 0; i < 2; i++ {
+				i := i
+				ths = append(ths, rt.GoNamed("user", func() {
+					got[i][0] = root.Timer("t")
+					got[i][0].Record(time.Duration(10 + i))
+					got[i][1] = sub.Timer("t")
+					got[i][1].Record(time.Duration(20 + i))
+				}))
+			}
+			for _, t := range ths {
+				t.Join()
+			}
+			if got[0][0] != got[1][0] || got[0][1] != got[1][1] {
+				x.failf("two-objects-for-one-identity", "the two goroutines were handed different timer objects for one scope and name")
+			}
+			tally.VerifReportOnce(root)
+		}
+		sc.Check = func(x *Run, o *rt.Outcome) (string, string, string) {
+			allocs, timers, mirrors := map[string]int{}, 0, int64(0)
+			for _, e := range x.Rec.Log {
+				switch e.Kind {
+				case "alloc-timer", "alloc-histogram":
+					allocs[e.Kind+" "+e.ID()]++
+				case "timer":
+					timers++
+				case "hduration":
+					mirrors += e.I
+				}
+			}
+			for id, n := range allocs {
+				if n != 1 {
+					return "allocated-more-than-once", fmt.Sprintf("%s allocated %d times", id, n), "viol"
+				}
+			}
+			if len(allocs) != 4 || timers != 4 || mirrors != 2 {
+				return "first-use-lost-something", fmt.Sprintf("allocations %v, %d timer values forwarded (4 recorded), %d mirror samples delivered (2 recorded)", allocs, timers, mirrors), "viol"
+			}
+			return "", "", "ok"
+		}
+		out = append(out, sc)
+	}
 	return out
 }
 
